@@ -443,6 +443,41 @@ def literal_errors_propagate(R, ctx):
         R.ob(rid, "no-unwrapped-literal-result", True, "", "%d constructor calls, none unwrapped" % ctor_calls)
 
 
+def byte_ranges(R, ctx, rid="C12.byte-range"):
+    """A token's range is cut out of the source with byte offsets (`code[start..end]`): an end computed from a count of characters
+    lands inside a multi-byte character and the slice panics."""
+    lib = ctx.lib
+    R.rule(rid, "every non-test call of the Token constructor that takes a source range (three integers: start, end, line): no value "
+                "flowing into start / end (through `let` bindings and arithmetic, within the function) comes from counting characters "
+                "(`Chars::count`, `char_indices().count()`); the range is later used to slice the source by bytes")
+    n = 0
+    for g in lib.fn_list:
+        if "::test" in g["path"] or not thir.body_of(g):
+            continue
+        fa = None
+        for c in thir.calls(g):
+            cal = callee_of(c) or ""
+            if not (cal.startswith("nodes::token::Token::") and len(c["args"]) == 3 and all(lib.ty_str(a.get("t")) == "usize" for a in c["args"])):
+                continue
+            fa = fa or ctx.an.fa(g["path"])
+            n += 1
+            seen, stack, counted = set(), list(c["args"][:2]), None
+            while stack and counted is None:
+                e = stack.pop()
+                if id(e) in seen:
+                    continue
+                seen.add(id(e))
+                for x in thir.walk(e):
+                    if x.get("k") == "Call" and x.get("fname") == "count" and x["args"] and \
+                            any(t in lib.ty_str(lib.strip_refs(x["args"][0].get("t"))) for t in ("str::iter::Chars", "str::iter::CharIndices")):
+                        counted = x
+                    if x.get("k") == "Var":
+                        stack.extend(src for src, _ in fa.env.get(x["var"], []) if isinstance(src, dict) and not str(src.get("k", "")).startswith("#"))
+            R.ob(rid, "%s|%s" % (g["path"].split("::")[-1], cal.split("::")[-1]), counted is None, ctx.where(g, c.get("ln")),
+                 "start and end are byte offsets" if counted is None else "a character count (line %s) flows into the byte range of the token" % counted.get("ln"))
+    R.require(rid, "floor:range-constructors", n >= 3, "", "%d range constructor calls" % n)
+
+
 def run(R, ctx):
     R.explanation = (
         "Narrow structural part of crash-freedom: token references of foreign text are always replaced (coverage of "
@@ -466,3 +501,4 @@ def run(R, ctx):
     from . import c14
     c14.keyword(R, ctx, rid="C12.names")
     census(R, ctx)
+    byte_ranges(R, ctx)
